@@ -33,6 +33,9 @@ type RespSpec struct {
 	EntryDN    string
 	WithAttrs  map[string][]string
 	Setters    []Setter
+	// Again: after the response has been written once, these setters are
+	// applied to the same object and it is written a second time
+	Again []Setter
 }
 
 // Expect is the model of the frame that must arrive. A nil pointer field
@@ -54,7 +57,12 @@ type Expect struct {
 var ctorTag = map[string]int{"bind": 1, "searchdone": 5, "entry": 4, "extended": 24, "modify": 7}
 
 // Model computes the expectation for a response built from request msgID.
-func (sp *RespSpec) Model(msgID int64) *Expect {
+func (sp *RespSpec) Model(msgID int64) *Expect { return sp.model(msgID, false) }
+
+// ModelAgain is the expectation for the second write (Again applied).
+func (sp *RespSpec) ModelAgain(msgID int64) *Expect { return sp.model(msgID, true) }
+
+func (sp *RespSpec) model(msgID int64, again bool) *Expect {
 	e := &Expect{MsgID: msgID, Tag: -1}
 	if t, ok := ctorTag[sp.Ctor]; ok {
 		e.Tag = t
@@ -90,7 +98,11 @@ func (sp *RespSpec) Model(msgID int64) *Expect {
 			e.Matched = &m
 		}
 	}
-	for _, s := range sp.Setters {
+	setters := sp.Setters
+	if again {
+		setters = append(append([]Setter{}, sp.Setters...), sp.Again...)
+	}
+	for _, s := range setters {
 		switch s.Kind {
 		case "code":
 			c := int64(s.Code)
@@ -218,13 +230,52 @@ func MakeControl(c CtrlRec) (gldap.Control, error) {
 	return nil, fmt.Errorf("unknown control kind %q", c.Kind)
 }
 
+// ctrlReuse lets one handler keep a paging control across its responses, as a
+// paged-search handler would: the same control object, its cookie rewritten in
+// place in the same buffer and handed to SetCookie again.
+type ctrlReuse struct {
+	paging *gldap.ControlPaging
+	buf    []byte
+	used   bool // the kept control is already part of the current SetControls call
+}
+
+func (u *ctrlReuse) control(c CtrlRec) (gldap.Control, error) {
+	if u == nil || c.Kind != "paging" || u.used {
+		return MakeControl(c)
+	}
+	u.used = true
+	if u.paging == nil {
+		p, err := gldap.NewControlPaging(c.PageSize)
+		if err != nil {
+			return nil, err
+		}
+		u.buf = make([]byte, len(c.Cookie), 64)
+		copy(u.buf, c.Cookie)
+		if len(c.Cookie) > 0 {
+			p.SetCookie(u.buf)
+		}
+		u.paging = p
+		return p, nil
+	}
+	u.paging.PagingSize = c.PageSize
+	if len(c.Cookie) > 0 && len(c.Cookie) <= cap(u.buf) {
+		u.buf = u.buf[:len(c.Cookie)]
+		copy(u.buf, c.Cookie)
+		u.paging.SetCookie(u.buf)
+	} else {
+		u.buf = append([]byte(nil), c.Cookie...)
+		u.paging.SetCookie(u.buf)
+	}
+	return u.paging, nil
+}
+
 // Build constructs the response through gldap's public API. It returns nil
 // and the recovered value if the constructor panicked (C16's subject, not
 // C04's: no response exists).
-func (sp *RespSpec) Build(r *gldap.Request) (resp gldap.Response, panicked interface{}) {
+func (sp *RespSpec) Build(r *gldap.Request, reuse *ctrlReuse) (resp gldap.Response, again func(), panicked interface{}) {
 	defer func() {
 		if p := recover(); p != nil {
-			resp, panicked = nil, p
+			resp, again, panicked = nil, nil, p
 		}
 	}()
 	var opts []gldap.Option
@@ -271,29 +322,38 @@ func (sp *RespSpec) Build(r *gldap.Request) (resp gldap.Response, panicked inter
 		entry = r.NewSearchResponseEntry(sp.EntryDN, opts...)
 		resp = entry
 	}
-	for _, s := range sp.Setters {
-		switch s.Kind {
-		case "code":
-			b.SetResultCode(s.Code)
-		case "diag":
-			b.SetDiagnosticMessage(s.Str)
-		case "matched":
-			b.SetMatchedDN(s.Str)
-		case "controls":
-			var cs []gldap.Control
-			for _, c := range s.Ctrl {
-				gc, err := MakeControl(c)
-				if err != nil {
-					panic(fmt.Sprintf("sim: control constructor refused %v: %v", c, err))
+	apply := func(list []Setter) {
+		for _, s := range list {
+			switch s.Kind {
+			case "code":
+				b.SetResultCode(s.Code)
+			case "diag":
+				b.SetDiagnosticMessage(s.Str)
+			case "matched":
+				b.SetMatchedDN(s.Str)
+			case "controls":
+				var cs []gldap.Control
+				if reuse != nil {
+					reuse.used = false
 				}
-				cs = append(cs, gc)
+				for _, c := range s.Ctrl {
+					gc, err := reuse.control(c)
+					if err != nil {
+						panic(fmt.Sprintf("sim: control constructor refused %v: %v", c, err))
+					}
+					cs = append(cs, gc)
+				}
+				setCtrls(cs...)
+			case "addattr":
+				entry.AddAttribute(s.Attr.Type, s.Attr.Vals)
 			}
-			setCtrls(cs...)
-		case "addattr":
-			entry.AddAttribute(s.Attr.Type, s.Attr.Vals)
 		}
 	}
-	return resp, nil
+	apply(sp.Setters)
+	if len(sp.Again) > 0 {
+		again = func() { apply(sp.Again) }
+	}
+	return resp, again, nil
 }
 
 // ---- generation ----------------------------------------------------------------
@@ -386,6 +446,11 @@ func (g *Gen) Resp(op string, final bool, rich bool) *RespSpec {
 		case 2:
 			sp.Setters = append(sp.Setters, Setter{Kind: "matched", Str: g.Str()})
 		}
+	}
+	if g.Ch.Choose(6) == 5 {
+		// written once, changed, written again (as a handler does that
+		// reports progress and then the final result)
+		sp.Again = []Setter{{Kind: "code", Code: g.code()}, {Kind: "diag", Str: g.Str()}}
 	}
 	if (sp.Ctor == "bind" || sp.Ctor == "searchdone") && g.Ch.Choose(2) == 1 {
 		// SetControls replaces: the last call decides (possibly with none)
